@@ -647,6 +647,66 @@ fn malformed(args: &Args, rep: &Report, col: &Collected) {
     }
 }
 
+/// direct round trips over a boundary family of node labels (trailing zero bytes, all lengths around
+/// byte boundaries, the configurations' empty-label sentinels) and elements / sibling proofs built from them
+fn boundary_roundtrips<TC: ModelCfg>(rep: &Report) {
+    let mut labels: Vec<akd::NodeLabel> = vec![TC::empty_label(), akd::NodeLabel::root()];
+    for len in [0u32, 1, 7, 8, 9, 248, 249, 255, 256] {
+        for zeros in 0..=32usize {
+            // a value whose last `zeros` bytes are zero (canonical for its length where possible)
+            let mut v = [0xa5u8; 32];
+            for b in v.iter_mut().skip(32 - zeros) {
+                *b = 0;
+            }
+            let nl = akd::NodeLabel::new(v, len);
+            labels.push(nl.get_prefix(len));
+            if len == 256 {
+                labels.push(nl);
+            }
+        }
+    }
+    labels.sort();
+    labels.dedup();
+    for l in &labels {
+        roundtrip!(rep, TC::NAME, "NodeLabel(boundary family)", l, pb::NodeLabel, akd::NodeLabel);
+        let e = akd::AzksElement { label: *l, value: akd::AzksValue([0u8; 32]) };
+        roundtrip!(rep, TC::NAME, "AzksElement(boundary family)", &e, pb::AzksElement, akd::AzksElement);
+        let e2 = akd::AzksElement { label: *l, value: akd::AzksValue([0xffu8; 32]) };
+        let sp = akd::SiblingProof { label: *l, siblings: [e2], direction: akd::Direction::Right };
+        roundtrip!(rep, TC::NAME, "SiblingProof(boundary family)", &sp, pb::SiblingProof, akd::SiblingProof);
+        let mp = MembershipProof { label: *l, hash_val: akd::AzksValue([0u8; 32]), sibling_proofs: vec![sp.clone(), sp] };
+        roundtrip!(rep, TC::NAME, "MembershipProof(boundary family)", &mp, pb::MembershipProof, MembershipProof);
+        let single = SingleAppendOnlyProof { inserted: vec![e], unchanged_nodes: vec![e2] };
+        roundtrip!(rep, TC::NAME, "SingleAppendOnlyProof(boundary family)", &single, pb::SingleAppendOnlyProof, SingleAppendOnlyProof);
+    }
+    rep.count(&format!("{}:boundary_labels_roundtripped", TC::NAME), labels.len() as u64);
+}
+
+/// user labels whose version-1 fresh / stale node labels END in a zero byte (their minimal protobuf
+/// encoding is shorter than 32 bytes), used as extra histories
+fn zero_tail_histories<TC: ModelCfg>() -> Vec<Vec<Batch>> {
+    let mut fresh_zero = None;
+    let mut stale_zero = None;
+    for i in 0..20_000 {
+        let l = format!("z{i}").into_bytes();
+        if fresh_zero.is_none() && node_label::<TC>(&l, true, 1).label_val[31] == 0 {
+            fresh_zero = Some(l.clone());
+        }
+        if stale_zero.is_none() && node_label::<TC>(&l, false, 1).label_val[31] == 0 {
+            stale_zero = Some(l.clone());
+        }
+        if fresh_zero.is_some() && stale_zero.is_some() {
+            break;
+        }
+    }
+    let mut out = vec![];
+    let al = alphabet::<TC>();
+    if let (Some(f), Some(s)) = (fresh_zero, stale_zero) {
+        out.push(vec![vec![(f.clone(), b"x".to_vec()), (al.labels[0].clone(), b"x".to_vec())], vec![(f.clone(), b"y".to_vec()), (s.clone(), b"x".to_vec())], vec![(s.clone(), b"y".to_vec())]]);
+    }
+    out
+}
+
 fn run_inner(args: &Args) -> i32 {
     let rep = Report::new("C19", &args.tier, "exploration");
     // silence panic messages of the (caught) decoder panics
@@ -659,6 +719,13 @@ fn run_inner(args: &Args) -> i32 {
     };
     let v = V19 { rep: &rep, col: &col };
     run_plan(args.threads, &plan, &v);
+    {
+        let cfg = WalkCfg { alphabet: vec![], depth: 0, cache: plan.cache, par: plan.par, threads: args.threads };
+        walk_histories::<W, _>(&cfg, &zero_tail_histories::<W>(), &v);
+        walk_histories::<E, _>(&cfg, &zero_tail_histories::<E>(), &v);
+    }
+    boundary_roundtrips::<W>(&rep);
+    boundary_roundtrips::<E>(&rep);
     let col = col.into_inner().unwrap();
     rep.count("lookup_proofs_collected", col.lookups.len() as u64);
     rep.count("history_proofs_collected", col.histories.len() as u64);
